@@ -6,7 +6,9 @@ import (
 	"flag"
 	"fmt"
 	"os"
+	"strconv"
 	"strings"
+	"time"
 
 	"verif/kit"
 	"verif/mon"
@@ -37,6 +39,14 @@ func main() {
 	if k := os.Getenv("VERIF_KNOWN"); k != "" {
 		r.Known = strings.Split(k, ",")
 	}
+	stall := 90 * time.Second
+	if *tier == "thorough" {
+		stall = 180 * time.Second
+	}
+	if v, err := strconv.Atoi(os.Getenv("VERIF_STALL")); err == nil && v > 0 {
+		stall = time.Duration(v) * time.Second
+	}
+	r.WatchStall(stall)
 	for i := 0; i < *reps; i++ {
 		m(r)
 	}
